@@ -33,6 +33,7 @@ def dispatch (l : Line) : List Verdict :=
   | "errpage" => handleErrPage l
   | "cors" => handleCors l
   | "proxycmds" => handleProxyCmds l
+  | "ssocookie" => handleSsoCookie l
   | "cb" => handleCb l
   | "idtok" => handleIdTok l
   | "idtokburst" => handleIdTokBurst l
